@@ -82,7 +82,25 @@ class Harness:
 
     def fresh(self):
         w = World()
-        if self.style == 'gated':
+        if self.style == 'truthy':
+            # a model class with its own truth value (so that `model or default` works as an existence test): whether it
+            # is running is what is_running() says
+            class Truthy(Core.Model):
+                def __bool__(self):
+                    return True
+            w.model = m = new_model(seed=1, cls=Truthy)
+        elif self.style == 'broken_logger':
+            # the caller's logger cannot emit (its handler's sink was closed): a refused request may fail with the
+            # handler's error or be refused as documented - the model is untouched either way
+            class Closed(logging.Handler):
+                def emit(self_, record):
+                    raise OSError('log sink closed')
+            lg = logging.getLogger('c06-broken')
+            lg.setLevel(logging.DEBUG)
+            lg.propagate = False
+            lg.handlers[:] = [Closed()]
+            w.model = m = Core.Model(seed=1, logger=lg)
+        elif self.style == 'gated':
             # a model class that refines is_running() with a condition of its own that can flip back and forth (say,
             # "somebody is still alive"): completion is permanent all the same
             class Gated(Core.Model):
@@ -177,7 +195,25 @@ class Harness:
 
     def ops(self, w):
         ops = [['complete']]
-        if self.style == 'gated':
+        if self.style == 'truthy':
+            # a model class with its own truth value (so that `model or default` works as an existence test): whether it
+            # is running is what is_running() says
+            class Truthy(Core.Model):
+                def __bool__(self):
+                    return True
+            w.model = m = new_model(seed=1, cls=Truthy)
+        elif self.style == 'broken_logger':
+            # the caller's logger cannot emit (its handler's sink was closed): a refused request may fail with the
+            # handler's error or be refused as documented - the model is untouched either way
+            class Closed(logging.Handler):
+                def emit(self_, record):
+                    raise OSError('log sink closed')
+            lg = logging.getLogger('c06-broken')
+            lg.setLevel(logging.DEBUG)
+            lg.propagate = False
+            lg.handlers[:] = [Closed()]
+            w.model = m = Core.Model(seed=1, logger=lg)
+        elif self.style == 'gated':
             ops.append(['gate', 0 if w.gate else 1])
         if not w.running or w.t < self.horizon:      # while running the clock is bounded by the horizon
             ops += [['execute', 1], ['execute', 2], ['execute', 3], ['xs'], ['xs_throw'], ['xs_old']]
@@ -258,6 +294,18 @@ class Harness:
                     m.systems.execute_systems(throw_error=True)
             except Core.ModelCompleteError as e:
                 raised = e
+            except OSError as e:
+                if self.style != 'broken_logger':
+                    raise
+                raised = e
+            if self.style == 'broken_logger':
+                # (what reaches the caller is the handler's error or the documented outcome; only the model is judged)
+                if len(w.log) != n0 or public_snapshot(m) != before:
+                    raise Violation(f'{op} on a complete model whose logger cannot emit: systems ran or the model changed',
+                                    expected=f'timestep {w.t}, nothing ran', observed=[m.timestep, w.log[n0:]])
+                w.last = ('complete', w.t, ())
+                self._status(w, op)
+                return
             if kind == 'xs_throw' and raised is None:
                 raise Violation('execute_systems(throw_error=True) on a complete model did not raise',
                                 expected='ModelCompleteError', observed='no exception')
@@ -316,6 +364,10 @@ class Harness:
                 m.systems.executeSystems()
             else:
                 m.systems.execute_systems(throw_error=True)   # behaves as a step while running
+        except OSError:
+            # (broken_logger: a request of several steps meets the completed model on the way and the refusal cannot be logged)
+            if self.style != 'broken_logger' or completed_at is None:
+                raise
         except (Halt, NotImplementedError):
             if completed_at is None:
                 raise Violation(f'{op}: the completer raised although it was not its completing timestep')
@@ -334,7 +386,7 @@ class Harness:
 
     def _status(self, w, op):
         m = w.model
-        if m.is_running() != w.running or bool(m) != w.running:
+        if m.is_running() != w.running or (bool(m) != w.running and self.style != 'truthy'):
             raise Violation(f'after {op}: is_running()={m.is_running()} bool(model)={bool(m)}', expected=w.running,
                             observed=[m.is_running(), bool(m)])
         if m.timestep != w.t or m.systems.timestep != w.t:
@@ -361,7 +413,7 @@ def configs(tier):
             yield (pos, tc, 4 if tier == 'quick' else 6, False)
     for pos in POS:
         yield (pos, 1, 4 if tier == 'quick' else 6, False, True)       # caller-supplied quiet logger
-    for style in ('self_removing', 'raises', 'finite_ends', 'gated', 'spawning', 'unimplemented'):
+    for style in ('self_removing', 'raises', 'finite_ends', 'gated', 'spawning', 'unimplemented', 'truthy', 'broken_logger'):
         for pos in ('first', 'mid', 'last'):
             for tc in ((1,) if tier == 'quick' else TCS):
                 yield (pos, tc, 4 if tier == 'quick' else 6, False, False, style)
@@ -527,6 +579,53 @@ def batch_case(case):
     return len(got)
 
 
+RELOAD_CHILD = r"""
+import importlib, sys
+sys.path.insert(0, sys.argv[1])
+import ECAgent.Core as Core
+m = Core.Model(seed=1)
+log = []
+class S(Core.System):
+    def execute(self):
+        log.append(self.model.systems.timestep)
+m.systems.add_system(S('s', m))
+m.execute(2)
+if sys.argv[2] == 'complete_first':
+    m.complete()
+    importlib.reload(Core)          # a notebook's autoreload: the library module is executed again in place
+else:
+    importlib.reload(Core)
+    m.complete()
+out = [m.is_running()]
+for call in (lambda: m.execute(), lambda: m.systems.execute_systems(), lambda: m.execute(3)):
+    call()
+try:
+    m.systems.execute_systems(throw_error=True)
+    out.append('no error')
+except Exception as e:
+    out.append(type(e).__name__)
+out += [m.is_running(), m.timestep, m.systems.timestep, log]
+print('RESULT ' + repr(out))
+"""
+
+
+def reload_case(case):
+    """The library module is reloaded (importlib.reload, as a notebook's autoreload does) around the completion of a
+    model built before: completion is permanent for that model object all the same."""
+    import subprocess
+    import sys as _sys
+    tree = os.path.dirname(os.path.dirname(os.path.abspath(Core.__file__)))
+    r = subprocess.run([_sys.executable, '-c', RELOAD_CHILD, tree, case['order']], capture_output=True, text=True,
+                       env=dict(os.environ, PYTHONHASHSEED='0'), timeout=300)
+    line = next((ln for ln in r.stdout.splitlines() if ln.startswith('RESULT ')), None)
+    exp = "[False, 'ModelCompleteError', False, 2, 2, [0, 1]]"
+    if line is None or line[7:] != exp:
+        raise Violation(f'a model completed {"before" if case["order"] == "complete_first" else "after"} the library module '
+                        f'was reloaded: [is_running, strict request, is_running, timestep, scheduler timestep, executions]',
+                        expected=exp, observed=line[7:] if line else (r.stderr.strip().splitlines() or [''])[-1])
+    return 5
+
+
 def run(ctx):
     for procs in (1, 2):
         for limit in (3, 10):
@@ -552,7 +651,17 @@ def run(ctx):
         except Violation as v:
             ctx.report(case, v)
             return
-    ctx.leg('after_completion_and_reentrant', cases=len(extra))
+    if not ctx.small:
+        for order in ('complete_first', 'reload_first'):
+            case = {'leg': 'reload', 'order': order}
+            ctx.traces += 1
+            try:
+                ctx.transitions += hbfs._guard(reload_case, case)
+            except Violation as v:
+                ctx.report(case, v)
+                return
+    ctx.leg('after_completion_and_reentrant', cases=len(extra), note='+ the library module reloaded around the completion '
+                                                                     '(fresh interpreter)')
     from mc.engine import par
     cfgs = list(configs(ctx.tier))
     if ctx.small:
@@ -563,6 +672,9 @@ def run(ctx):
 def replay(case):
     if case['leg'] == 'batch':
         hbfs._guard(batch_case, case)
+        return
+    if case['leg'] == 'reload':
+        hbfs._guard(reload_case, case)
         return
     if case['leg'] in ('after_completion', 'reentrant'):
         hbfs._guard(after_completion_case if case['leg'] == 'after_completion' else reentrant_case, case)
